@@ -147,7 +147,7 @@ def check(rep):
         if base + 200000 >= U32:
             for t in trs:
                 t["co64"] = True       # 32-bit chunk offsets cannot represent these positions
-        r, tracks, _ = isogen.build_movie(trs, layout, base=base)
+        r, tracks, _ = isogen.build_movie(trs, layout, base=base, large_mdat=(i % 7 == 3))
         files.append((bytes(r.data), tracks, base, layout))
     fails, ties = [], []
     stats = {"files": len(files), "tracks": 0, "samples": 0, "consistent": 0, "with_base": 0, "co64": 0, "fixed_size": 0, "with_ctts": 0, "with_stss": 0}
